@@ -46,8 +46,18 @@ func c14Module(i int, imports []int, rng *rand.Rand, errLine string) string {
 	for l := 0; l < nlit; l++ {
 		fmt.Fprintf(&sb, "    let f%d := fn(y: i32) -> i32 {\n        return y + k + %d;\n    };\n", l, l)
 	}
+	// a function literal capturing several locals: the capture layout must not depend on the run
+	ncap := 2 + rng.IntN(4)
+	for q := 0; q < ncap; q++ {
+		fmt.Fprintf(&sb, "    let cap%d: i32 = v + %d;\n", q, q*3+1)
+	}
+	sb.WriteString("    let fcap := fn(y: i32) -> i32 {\n        return y")
+	for q := ncap - 1; q >= 0; q-- {
+		fmt.Fprintf(&sb, " + cap%d * %d", q, q+2)
+	}
+	sb.WriteString(";\n    };\n")
 	fmt.Fprintf(&sb, "    let anon: struct { .P: i32, .Q: i32 } = { .P = v, .Q = %d };\n    let s: S%d = { .A = v, .B = 7 };\n    let t: T%d = { .K = v };\n    let sa: Sh%d = s;\n    let sb: Sh%d = t;\n    let acc: i32 = anon.P + anon.Q + sa.area() + sb.area();\n", i, i, i, i, i)
-	sb.WriteString("    let total: i32 = acc")
+	sb.WriteString("    let total: i32 = acc + fcap(v)")
 	for l := 0; l < nlit; l++ {
 		fmt.Fprintf(&sb, " + f%d(v)", l)
 	}
@@ -68,10 +78,11 @@ func genC14Project(rng *rand.Rand, idx int, kind string) c14Project {
 	p := c14Project{id: fmt.Sprintf("gen:%d", idx), kind: kind, files: map[string]string{}, nmod: n + 1}
 	errLines := []string{"let bad: i32 = undefinedName;", "let bad: str = 5;", "let bad: i32 = \"s\";", "missingFn(1);", "let bad: i8 = 300;"}
 	nerr := 0
+	backTo := rng.IntN(n - 1) // cycle projects: the last module imports this one, which imports the last
 	for i := 0; i < n; i++ {
 		var imps []int
 		for j := i + 1; j < n; j++ { // DAG: only higher-numbered modules
-			if rng.IntN(3) == 0 {
+			if rng.IntN(3) == 0 || (kind == "cycle" && i == backTo && j == n-1) {
 				imps = append(imps, j)
 			}
 		}
@@ -81,8 +92,13 @@ func genC14Project(rng *rand.Rand, idx int, kind string) c14Project {
 			nerr++
 		}
 		src := c14Module(i, imps, rng, el)
+		if kind == "parse-errors" && (i%2 == 0 || i == n-1) {
+			// the same syntax error on the same line of several concurrently parsed modules
+			src = strings.Replace(src, fmt.Sprintf("fn Name%d() -> str {", i), fmt.Sprintf("fn Name%d() -> str {\n    let broken%d: i32 = ;", i, i), 1)
+			src = fmt.Sprintf("const zz%d: i32 = 5\n", i) + src
+		}
 		if kind == "cycle" && i == n-1 {
-			src = fmt.Sprintf("import \"{{PROJ}}/m%d\" as back;\n", rng.IntN(n-1)) + src
+			src = fmt.Sprintf("import \"{{PROJ}}/m%d\" as back;\n", backTo) + src
 		}
 		p.files[fmt.Sprintf("m%d.fer", i)] = src
 	}
@@ -122,7 +138,7 @@ type c14Obs struct {
 
 func checkC14(c *Ctx) error {
 	r := c.R
-	r.Rule = "generated projects of 4-9 modules (function literals in every module, anonymous struct types, interfaces with two implementers per module, enums, strings; one third with type errors in several files, one sixth with an import cycle) compiled repeatedly in the same directory: ferret-verif with distinct (GOMAXPROCS in {1,2,4,16}, VERIF_SCHED seed) for native (-keep-gen) and wasm, ferret-race (race detector) and the plain ferret; all observations (exit status, stderr bytes, each gen/*.ssa, .wasm bytes) must be identical; non-trivial = a distinct project for which >=2 distinct parse orders were actually observed in the event log and all runs agreed"
+	r.Rule = "generated projects of 4-9 modules (function literals in every module, anonymous struct types, interfaces with two implementers per module, enums, strings; closures capturing 2-5 locals; one third with type errors in several files, one sixth with the same syntax errors on the same lines of several modules, one sixth with an import cycle) compiled repeatedly in the same directory: ferret-verif with distinct (GOMAXPROCS in {1,2,4,16}, VERIF_SCHED seed) for native (-keep-gen) and wasm, ferret-race (race detector) and the plain ferret; all observations (exit status, stderr bytes, each gen/*.ssa, .wasm bytes) must be identical; non-trivial = a distinct project for which >=2 distinct parse orders were actually observed in the event log and all runs agreed"
 	r.Assumptions = []string{"the hooks only yield/sleep between critical sections of parseModule and log events; they never change data", "runs of one project share the directory, so absolute paths in diagnostics are identical by construction"}
 	nProj := c.N(6, 90)
 	nSched := c.N(4, 14)
@@ -150,6 +166,8 @@ func checkC14(c *Ctx) error {
 		switch pi % 6 {
 		case 1, 4:
 			kind = "errors"
+		case 3:
+			kind = "parse-errors"
 		case 5:
 			kind = "cycle"
 		}
@@ -302,7 +320,7 @@ func checkC14(c *Ctx) error {
 				r.Inconclusive(fmt.Sprintf("%s: an 'ok' project was rejected: %s", proj.id, core.Short(core.StripANSI(ref.stderr), 300)))
 				return
 			}
-		case "errors", "cycle":
+		case "errors", "cycle", "parse-errors":
 			if ref.exit == 0 {
 				r.Inconclusive(proj.id + ": a failing project was accepted")
 				return
